@@ -226,6 +226,7 @@ func (b *Built) generate() error {
 	if err != nil {
 		return err
 	}
+	os.RemoveAll(filepath.Join(b.Dir, "root")) // a second Build in the same scratch must not nest std/std
 	root, err := wgen.MakeRoot(b.Dir, "root")
 	if err != nil {
 		return err
